@@ -121,12 +121,19 @@ def setup():
     I, C, env, PILImage = _I, _C, _env, _PI
     Image = _PI.Image
     SERVER = _Server()
+    # the histories call gc.collect() several times each; everything imported so far is long-lived
+    gc.collect()
+    gc.freeze()
 
 
 # ====================================================================================== generation
 
 STYLES = ["block", "kitty", "iterm2"]
-SITES = ["convert", "resize", "save", "tobytes", "frombytes", "alpha_composite", "getdata"]
+SITES = {  # PIL entry points each style's render path can reach
+    "block": ["convert", "resize", "getdata", "getdata", "alpha_composite"],
+    "kitty": ["convert", "resize", "tobytes", "tobytes", "alpha_composite"],
+    "iterm2": ["convert", "resize", "save", "save", "tobytes", "frombytes", "alpha_composite"],
+}
 IDENTS = [["", ""], ["kitty", "0.26.5"], ["wezterm", "20230712-072601-f4abf8fd"], ["iterm2", "3.4.19"],
           ["konsole", "22.04.0"]]
 SIZE_ENUM = ["FIT", "AUTO", "ORIGINAL", "FIT_TO_WIDTH"]
@@ -195,8 +202,8 @@ def iter_params(draw, style, n):
 def an_op(draw, style, n, animated):
     if animated:
         kind = draw(st.sampled_from(
-            ["iter"] * 3 + ["next"] * 7 + ["seek"] * 3 + ["close"] * 2 + ["drop"] * 2 + ["str", "format", "format"]
-            + ["draw"] * 2 + ["size"] * 2 + ["resize", "img_seek", "img_close", "with"]))
+            ["iter"] * 3 + ["next"] * 8 + ["seek"] * 3 + ["close"] * 2 + ["drop"] * 2 + ["str", "format", "format"]
+            + ["draw"] * 2 + ["size"] * 4 + ["resize", "resize", "img_seek", "img_close", "with"]))
     else:
         kind = draw(st.sampled_from(["str", "format", "format", "format", "draw", "draw", "size", "resize", "iter",
                                      "img_seek", "img_close", "with"]))
@@ -208,7 +215,8 @@ def an_op(draw, style, n, animated):
         o["k"] = draw(st.integers(1, n + 2))
     elif kind == "seek":
         o["it"] = draw(st.integers(0, 3))
-        o["pos"] = draw(st.integers(-1, n))
+        o["pos"] = draw(st.sampled_from([-1, n] + list(range(n)) * 3))
+        o["pre"] = draw(st.sampled_from([0, 1, 1, 2]))  # next() calls made first
     elif kind in ("close", "drop"):
         o["it"] = draw(st.integers(0, 3))
     elif kind == "format":
@@ -244,7 +252,10 @@ def cases(draw):
     style = draw(st.sampled_from(STYLES))
     animated = draw(st.integers(0, 5)) != 0
     if animated:
-        img = draw(gen.anim_image(max_frames=5, max_w=8, max_h=8))
+        # APNG is left out: Pillow 11.1 itself fails ("APNG contains frame sequence errors") when an APNG is
+        # rewound from a middle frame and then sought forward again (pure-PIL reproduction: seek 1, load, seek 0,
+        # load, seek 1), which every backward iterator seek / PIL source positioned mid-way runs into.
+        img = draw(gen.anim_image(max_frames=5, max_w=8, max_h=8, fmts=("GIF", "WEBP")))
         n = img["n"]
         kind = draw(st.sampled_from(["file", "file", "file", "pil", "pil", "url", "url", "url",
                                      "url404", "urlbad", "urlarg"]))
@@ -272,7 +283,7 @@ def cases(draw):
     case["it0"] = draw(iter_params(style, n).filter(lambda p: p["ctor"] != "bad"))
     case["ops"] = draw(st.lists(an_op(style, n, animated), min_size=1, max_size=12))
     if draw(st.booleans()):
-        case["fault"] = {"site": draw(st.sampled_from(SITES)), "exc": draw(st.sampled_from(["RuntimeError", "OSError"])),
+        case["fault"] = {"site": draw(st.sampled_from(SITES[style])), "exc": draw(st.sampled_from(["RuntimeError", "OSError"])),
                          "op": draw(st.integers(0, 11)), "k": draw(st.integers(0, 40)),
                          "when": draw(st.sampled_from(["before", "before", "after"]))}
     else:
@@ -372,7 +383,6 @@ class World:
         self.animated = bool(case["source"]["image"].get("anim"))
         self.n = case["source"]["image"]["n"] if self.animated else 1
         self.image = self.pil = self.twin = None
-        self.pil_fd = 0          # fds on the source file legitimately held by the caller's PIL image
         self.its = []            # dicts: it, m, fields, spec, started_file
         self.img_closed = False
         self.ctx = None          # context tag added to every later violation signature
@@ -410,6 +420,19 @@ class World:
             if t.startswith(self.dirs):
                 out[t] += 1
         return out
+
+    def caller_fds(self):
+        """Number of descriptors currently held open by the caller's PIL image (PIL keeps, swaps and
+        closes .fp/._fp on its own depending on the format; Pillow is trusted base)."""
+        nums = set()
+        if self.pil is not None:
+            for f in (getattr(self.pil, "fp", None), getattr(self.pil, "_fp", None)):
+                try:
+                    if f is not None and not f.closed:
+                        nums.add(f.fileno())
+                except (AttributeError, OSError, ValueError):
+                    pass
+        return len(nums)
 
     def live_file_iters(self):
         if self.kind not in ("file", "url"):
@@ -484,13 +507,12 @@ class World:
         if p is None:
             return
         try:
-            # (multi-frame files: PIL itself juggles .fp/._fp; that the file is still open is
-            # verified through the descriptor count in check_resources)
-            if deep or not self.pil_fd:
-                if self.animated:
-                    p.seek(0)
-                p.load()
-                p.getpixel((0, 0))
+            if self.animated:
+                if not deep:
+                    return  # not perturbed mid-history; a closed file shows up in the final deep check
+                p.seek(0)
+            p.load()
+            p.getpixel((0, 0))
         except Exception as x:
             self.fail(f"{where}: the PIL image supplied by the caller is no longer usable ({type(x).__name__}: {x})",
                       "caller_pil_closed", at=where)
@@ -499,11 +521,8 @@ class World:
         if collect:
             gc.collect()
         now = self.fds() - self.base
-        total = sum(now.values())
-        lib = total - self.pil_fd
+        lib = sum(now.values()) - self.caller_fds()
         live = self.live_file_iters()
-        if lib < 0:
-            self.fail(f"{where}: the caller's PIL image lost its file ({dict(now)})", "caller_pil_closed", at=where)
         if lib > live:
             self.fail(f"{where}: {lib} image file descriptor(s) opened by the library are still open with {live} "
                       f"live iterator(s): {dict(now)}", "fd_leak", at=where)
@@ -594,7 +613,6 @@ def construct(w):
         w.pil = PILImage.open(path)
         if w.animated:
             w.pil.seek(src.get("start", 0))
-            w.pil_fd = 1
             w.tell = src.get("start", 0)
         else:
             w.pil.load()  # single-frame files are closed by PIL itself once loaded
@@ -629,7 +647,7 @@ def _new_iter(w, p, inj):
         elif b == "cached-1":
             cached, expect = -1, ValueError
         elif b == "spec_value":
-            spec, expect = spec + "~", ValueError
+            spec, expect = spec_text(dict(fields, sty="")) + "~", ValueError
         else:
             spec, expect = spec_text(dict(fields, sty="")) + "+Q", StyleError
     if not w.animated:
@@ -781,6 +799,10 @@ def do_op(w, o, inj):
             note = "no_iter"
         else:
             m, pos = e["m"], o["pos"]
+            if o.get("pre"):
+                _do_nexts(w, e, o["pre"], inj, armed, fired)
+                if fired():
+                    collect = True
             if not 0 <= pos < w.n:
                 exp = "ValueError"
             elif not m.started or m.closed:
@@ -898,6 +920,8 @@ def do_op(w, o, inj):
 
 
 def _do_nexts(w, e, k, inj, armed, fired):
+    from term_image.exceptions import TermImageError
+
     it, m = e["it"], e["m"]
     notes = []
     for _ in range(k):
@@ -938,7 +962,12 @@ def _do_nexts(w, e, k, inj, armed, fired):
         else:
             if x is not None:
                 name, msg = type(x).__name__, str(x)
+                finalized = w.img_closed and isinstance(x, TermImageError)
                 x = None
+                if finalized:  # documented clean rejection: "This image has been finalized"
+                    m.closed = True
+                    notes.append("finalized")
+                    continue
                 w.fail(f"next() raised {name}: {msg}; expected frame {exp} (pass {m.done + 1} of {m.repeat})",
                        "next_exception", exc=name)
             bad = w.frame_ok(res, exp, e)
@@ -1049,7 +1078,7 @@ def check_history(case, rec):
             if "fault_fired" not in w2.flags:
                 raise AssertionError(f"harness: fault {f} planned at op {j} (of {counts}) did not fire")
             site = f["site"]
-            rec.label("fault:" + site, "fault_fired")
+            rec.label("fault:" + site)
         else:
             rec.label("fault_unreachable")
     src = case["source"]["kind"]
@@ -1064,7 +1093,7 @@ CLAUSES = [
         "history",
         check_history,
         cases,
-        budget={"quick": 640, "thorough": 8000},
+        budget={"quick": 4000, "thorough": 60000},
         floors={},
     ),
 ]
